@@ -195,7 +195,7 @@ def inline_locals(f: FuncInfo, e: ast.AST | None, depth: int = 8, calls: str = "
                     for el in ast.walk(t):
                         if isinstance(el, ast.Name):
                             tgts.append((el.id, None))
-        elif isinstance(n, ast.AnnAssign) and isinstance(n.target, ast.Name):
+        elif isinstance(n, ast.AnnAssign) and isinstance(n.target, ast.Name) and n.value is not None:
             tgts.append((n.target.id, n.value))
         elif isinstance(n, (ast.AugAssign, ast.NamedExpr)) and isinstance(n.target, ast.Name):
             tgts.append((n.target.id, None))
